@@ -159,8 +159,10 @@ theorem insertLeaf_sim (ver : Ver) (H : Bytes → Bytes) (T0 : Trie) (c : Option
       -- the new key extends the key of the leaf
       simp only [List.append_nil] at hv
       have hc1 : ¬ (cc.length = (cc ++ []).length ∧ cc.length = (cc ++ j :: krest).length) := by simp
+      have hc1' : ¬ (True ∧ cc.length = (cc ++ j :: krest).length) := by simp
       have hc2 : ¬ (cc.length < (cc ++ []).length) := by simp
-      simp only [hc1, hc2, if_false, List.drop_left', List.append_nil]
+      have hc2' : ¬ (cc.length < cc.length) := by simp
+      simp only [hc1, hc1', hc2, hc2', if_false, List.drop_left', List.append_nil]
       refine ⟨[], rfl, ?_⟩
       refine ⟨⟨?_, ?_, fun h hh => by cases hh⟩, ?_, rfl, rfl, by simp, ?_, by simp⟩
       · intro dv hdv; cases hdv; exact hv
@@ -231,5 +233,151 @@ theorem insertLeaf_sim (ver : Ver) (H : Bytes → Bytes) (T0 : Trie) (c : Option
           · rcases needs_setKid h with ⟨_, h⟩ | ⟨_, h⟩
             · exact hmovedN pos h
             · exact h.elim
+
+/-! ### `inspect`: from the inspector's node to the stored node -/
+
+theorem asNew_of_cached_none {n : Hd} (h : n.cached = none) (hm : n.isMem = true) : n.asNew = n := by
+  cases n <;> simp_all [Hd.asNew, Hd.cached, Hd.isMem]
+
+theorem abs_withCache (T0 : Trie) (h : Bytes) (n : Hd) (pre : Nibs) (hm : n.isMem = true) :
+    abs T0 (n.withCache h) pre = abs T0 n pre := by
+  cases n <;> simp_all [Hd.withCache, abs, Hd.isMem]
+
+theorem noFresh_withCache (h : Bytes) (n : Hd) (hm : n.isMem = true) :
+    noFresh (n.withCache h) ↔ noFresh n := by
+  cases n <;> simp_all [Hd.withCache, noFresh, Hd.isMem]
+
+theorem needs_withCache {h : Bytes} {n : Hd} {pre : Nibs} {pos : Pos} (hm : n.isMem = true)
+    (hn : Needs (n.withCache h) pre pos) : pos = .node pre ∨ Needs n pre pos := by
+  cases n with
+  | leaf c pk dv =>
+    simp only [Hd.withCache, Needs] at hn ⊢
+    rcases hn with ⟨_, hp⟩ | hr
+    · exact Or.inl hp
+    · exact Or.inr (Or.inr hr)
+  | branch c pk dvo cs =>
+    simp only [Hd.withCache, Needs] at hn ⊢
+    rcases hn with ⟨_, hp⟩ | hr
+    · exact Or.inl hp
+    · exact Or.inr (Or.inr hr)
+  | none => simp [Hd.isMem] at hm
+  | persisted _ => simp [Hd.isMem] at hm
+  | empty _ => simp [Hd.isMem] at hm
+
+/-- a new in-memory node does not refer to its own row -/
+theorem not_needs_self {n : Hd} {pre : Nibs} (hc : n.cached = none) (hm : n.isMem = true) :
+    ¬ Needs n pre (.node pre) := by
+  intro hn
+  cases n with
+  | leaf c pk dv =>
+    simp only [Hd.cached] at hc
+    simp only [Needs, hc] at hn
+    rcases hn with ⟨h, _⟩ | ⟨_, h⟩ <;> cases h
+  | branch c pk dvo cs =>
+    simp only [Hd.cached] at hc
+    simp only [Needs, hc] at hn
+    rcases hn with ⟨h, _⟩ | ⟨_, h⟩ | ⟨i, hi⟩
+    · cases h
+    · cases h
+    · exact below_child_ne_node (needs_below _ _ _ hi) rfl
+  | none => simp [Hd.isMem] at hm
+  | persisted _ => simp [Hd.isMem] at hm
+  | empty _ => simp [Hd.isMem] at hm
+
+theorem needs_self_of_cached {n : Hd} {pre : Nibs} {h : Bytes} (hc : n.cached = some h)
+    (hm : n.isMem = true) : Needs n pre (.node pre) := by
+  cases n with
+  | leaf c pk dv => simp only [Hd.cached] at hc; simp [Needs, hc]
+  | branch c pk dvo cs => simp only [Hd.cached] at hc; simp [Needs, hc]
+  | none => simp [Hd.isMem] at hm
+  | persisted _ => simp [Hd.isMem] at hm
+  | empty _ => simp [Hd.isMem] at hm
+
+/-- consistency facts of a cached in-memory node -/
+theorem ok_cached {ver : Ver} {H : Bytes → Bytes} {T0 : Trie} {n : Hd} {pre : Nibs} {h : Bytes}
+    (hok : Ok ver H T0 n pre) (hc : n.cached = some h) (hm : n.isMem = true) :
+    HashAt ver H T0 pre h ∧ abs T0 n pre = subAt T0 pre ∧ noFresh n := by
+  cases n with
+  | leaf c pk dv =>
+    simp only [Hd.cached] at hc
+    obtain ⟨_, hcl⟩ := hok
+    obtain ⟨h1, h2, h3⟩ := hcl h hc
+    exact ⟨h1, h2, h3⟩
+  | branch c pk dvo cs =>
+    simp only [Hd.cached] at hc
+    obtain ⟨_, _, hcl⟩ := hok
+    exact hcl h hc
+  | none => simp [Hd.isMem] at hm
+  | persisted _ => simp [Hd.isMem] at hm
+  | empty _ => simp [Hd.isMem] at hm
+
+/-- re-attaching the hash to an unchanged node -/
+theorem ok_withCache {ver : Ver} {H : Bytes → Bytes} {T0 : Trie} {n : Hd} {pre : Nibs} {h : Bytes}
+    (hok : Ok ver H T0 n pre) (hm : n.isMem = true) (hh : HashAt ver H T0 pre h)
+    (habs : abs T0 n pre = subAt T0 pre) (hnf : noFresh n) : Ok ver H T0 (n.withCache h) pre := by
+  cases n with
+  | leaf c pk dv =>
+    obtain ⟨hv, _⟩ := hok
+    refine ⟨hv, fun h' hh' => ?_⟩
+    cases hh'
+    exact ⟨hh, habs, hnf⟩
+  | branch c pk dvo cs =>
+    obtain ⟨hv, hk, _⟩ := hok
+    refine ⟨hv, hk, fun h' hh' => ?_⟩
+    cases hh'
+    exact ⟨hh, habs, hnf⟩
+  | none => simp [Hd.isMem] at hm
+  | persisted _ => simp [Hd.isMem] at hm
+  | empty _ => simp [Hd.isMem] at hm
+
+/-- postcondition of `insertAt` / of a surviving `removeAt` on the handle `hd` at `pre` -/
+structure OpPost (ver : Ver) (H : Bytes → Bytes) (T0 : Trie) (pre : Nibs) (hd : Hd) (target : Trie)
+    (ch : Bool) (hd' : Hd) (news : List Pos) : Prop where
+  ok : Ok ver H T0 hd' pre
+  abs : abs T0 hd' pre = target
+  mem : hd'.isMem = true
+  fresh : ∀ pos ∈ news, Below pre pos ∧ ¬ Needs hd' pre pos
+  mono : ∀ pos, Needs hd' pre pos → Needs hd pre pos
+  same : ch = false → news = [] ∧ (noFresh hd → noFresh hd' ∧ target = C06.abs T0 hd pre)
+
+/-- `inspect` after an inspector that met its postcondition -/
+theorem wrap_post {ver : Ver} {H : Bytes → Bytes} {T0 : Trie} {pre : Nibs} {stored : Hd}
+    (hok : Ok ver H T0 stored pre) (hm : stored.isMem = true) {target : Trie} {ch : Bool} {n : Hd}
+    {newsI : List Pos} (hp : InspPost ver H T0 pre stored target ch n newsI) (d : Death) :
+    ∃ news, (afterInspect stored pre (newsI.map (rowOf ver H T0) ++ d) ch n).2.2 =
+        news.map (rowOf ver H T0) ++ d ∧
+      OpPost ver H T0 pre stored target (afterInspect stored pre (newsI.map (rowOf ver H T0) ++ d) ch n).2.1
+        (afterInspect stored pre (newsI.map (rowOf ver H T0) ++ d) ch n).1 news := by
+  cases hc : stored.cached with
+  | none =>
+    rw [afterInspect_none hc, asNew_of_cached_none hp.cached hp.mem]
+    exact ⟨newsI, rfl, ⟨hp.ok, hp.abs, hp.mem, hp.fresh, hp.mono, hp.same⟩⟩
+  | some h =>
+    obtain ⟨hh, habs, hnf⟩ := ok_cached hok hc hm
+    cases ch with
+    | true =>
+      rw [afterInspect_changed hc, asNew_of_cached_none hp.cached hp.mem]
+      refine ⟨.node pre :: newsI, ?_, ⟨hp.ok, hp.abs, hp.mem, ?_, hp.mono, by simp⟩⟩
+      · simp [rowOf, hh.2.1]
+      · intro pos hpos
+        rcases List.mem_cons.mp hpos with rfl | hpos
+        · exact ⟨List.prefix_refl _, not_needs_self hp.cached hp.mem⟩
+        · exact hp.fresh pos hpos
+    | false =>
+      rw [afterInspect_same hc]
+      obtain ⟨hnews, hsame⟩ := hp.same rfl
+      obtain ⟨hnf', htar⟩ := hsame hnf
+      subst hnews
+      refine ⟨[], rfl, ⟨?_, ?_, ?_, by simp, ?_, ?_⟩⟩
+      · exact ok_withCache hp.ok hp.mem hh (by rw [hp.abs, htar, habs]) hnf'
+      · rw [abs_withCache T0 h n pre hp.mem, hp.abs]
+      · have hmem := hp.mem
+        cases n <;> simp [Hd.withCache, Hd.isMem] at hmem ⊢
+      · intro pos hn
+        rcases needs_withCache hp.mem hn with rfl | hn
+        · exact needs_self_of_cached hc hm
+        · exact hp.mono pos hn
+      · intro _
+        exact ⟨rfl, fun _ => ⟨(noFresh_withCache h n hp.mem).mpr hnf', htar⟩⟩
 
 end Gossamer.C06
